@@ -16,6 +16,7 @@ LEVEL = "exploration"
 EXHAUSTIVE = True          # the enumerate_cases part: every built-in type of every element in every table state
 EXAMPLES = {"quick": 1400, "thorough": 30000}
 SHRINK_S = {"quick": 10, "thorough": 40}
+DEADLINE_S = {"quick": 900, "thorough": 3000}
 RULE = ("enumerate_cases (exhaustive): each of the 75 built-in line/line_dc/trafo/trafo3w types in each of 4 states of the "
         "element table (empty; one element of another type; one element created from parameters with every optional "
         "column; after add_temperature_coefficient + add_zero_impedance_parameters) and each of the 31 built-in fuse types. "
@@ -134,8 +135,12 @@ def _register(net, case):
     """put the generated types into the library (the data handed over is a private copy)"""
     import pandapower as pp
     el = case["el"]
-    if case["old"] is not None and case["old"]["data"] is not None:
-        pp.create_std_type(net, copy.deepcopy(case["old"]["data"]), case["old"]["name"], element=el)
+    o = case["old"]
+    if o is not None and o["data"] is not None and case["data"] is not None and o["name"] != case["name"]:
+        pp.create_std_types(net, {o["name"]: copy.deepcopy(o["data"]), case["name"]: copy.deepcopy(case["data"])}, element=el)
+        return
+    if o is not None and o["data"] is not None:
+        pp.create_std_type(net, copy.deepcopy(o["data"]), o["name"], element=el)
     if case["data"] is not None:
         pp.create_std_type(net, copy.deepcopy(case["data"]), case["name"], element=el)
 
@@ -175,8 +180,9 @@ def build_line(case, mode):
     length = line_length(case)
     if dc:
         pp.create_buses(net, 3, 110.0)
-        pp.create_line_from_parameters(net, 0, 1, 30, 0.0487, 0.13823, 160, 0.664)
-        pp.create_line_from_parameters(net, 0, 2, 30, 0.0487, 0.13823, 160, 0.664)
+        # AC side without lines (net.line stays empty, so that its columns say nothing about net.line_dc)
+        pp.create_impedance(net, 0, 1, 0.002, 0.01, 100.)
+        pp.create_impedance(net, 0, 2, 0.002, 0.01, 100.)
         _ext_grid(net, 0)
         pp.create_load(net, 2, 10, 5)
         pp.create_bus_dc(net, 110.0, "A")
@@ -190,10 +196,11 @@ def build_line(case, mode):
         create, create_par = pp.create_line, pp.create_line_from_parameters
     pre = case["pre"]
     od = old_data(case)
-    if pre in ("std", "addcols"):
+    if pre == "std":
         create(net, pb[0], pb[1], length, std_type=case["old"]["name"])
-        if pre == "addcols":
-            _addcols(net)
+    elif pre == "addcols":
+        create(net, pb[0], pb[1], length, std_type=case["old"]["name"], temperature_degree_celsius=25.0)
+        _addcols(net)
     elif pre == "rich":
         kw = dict(length_km=length, r_ohm_per_km=od["r_ohm_per_km"], max_i_ka=od["max_i_ka"], alpha=4e-3,
                   temperature_degree_celsius=20.0, max_loading_percent=100.0, g_us_per_km=0.5)
@@ -336,9 +343,11 @@ def rule_i(res, case, net, idx, data):
 
 
 def rule_iii(res, case, net_std, idx, data):
-    """(iii) change_std_type on an element of the old type == creating it with the new type, on the type's columns"""
+    """(iii) change_std_type on an element of the old type == creating it with the new type, on the type's columns
+    (keys for which the creation itself was already reported by rule (i) are not reported a second time)"""
     import pandapower as pp
     el = case["el"]
+    reported = {d.get("key") for s, d in res.failures if s.startswith("cell/")}
     try:
         with silence():
             net_c, idx_c = BUILD[el](case, "change")
@@ -352,10 +361,11 @@ def rule_iii(res, case, net_std, idx, data):
     if tc.at[idx_c, "std_type"] != case["name"]:
         res.fail("change/%s/std_type" % el, cell=repr(tc.at[idx_c, "std_type"]))
     for k in data:
-        if k in EXEMPT.get(el, ()) or k not in ts.columns:
+        if k in EXEMPT.get(el, ()) or k not in ts.columns or k in reported:
             continue
         if k not in tc.columns:
-            res.fail("change/%s/%s/column-not-added" % (el, G.key_class(el, k)), key=k, created=repr(ts.at[idx, k]))
+            # one root cause (change_std_type loops over the existing columns only): one signature per element
+            res.fail("change/%s/column-not-added" % el, key=k, key_class=G.key_class(el, k), created=repr(ts.at[idx, k]))
         elif not same_cell(tc.at[idx_c, k], ts.at[idx, k]):
             res.fail("change/%s/%s/differs-from-creation" % (el, G.key_class(el, k)), key=k, changed=repr(tc.at[idx_c, k]),
                      created=repr(ts.at[idx, k]))
@@ -426,9 +436,10 @@ def rule_ii(res, case, net_std, data):
         o = dict(calc["pf"])
         temp = o.pop("consider_line_temperature")
         # line temperature needs alpha and temperature_degree_celsius for every line: only after the documented
-        # add_temperature_coefficient / with explicit columns (pre = rich), and when the type itself defines alpha
-        if el in ("line", "line_dc") and temp and case["pre"] == "rich" and "alpha" in data \
-                and case["args"]["temperature_degree_celsius"] is not None:
+        # add_temperature_coefficient (pre = addcols) or with explicit columns (pre = rich), and when the types define alpha
+        # (not for line_dc: build_branch._calc_line_dc_parameter takes the correction factor of net.line, not net.line_dc)
+        if el == "line" and temp and "alpha" in data and case["args"]["temperature_degree_celsius"] is not None \
+                and (case["pre"] == "rich" or (case["pre"] == "addcols" and "alpha" in old_data(case))):
             o["consider_line_temperature"] = True
             res.label("pf:line-temperature")
         done |= compare_calc(res, el, "pf", pp.runpp, net_std, net_x, tolerance_mva=1e-10, max_iteration=30, **o)
@@ -437,11 +448,14 @@ def rule_ii(res, case, net_std, data):
         pre = case["pre"]
         if el == "line":
             # zero-sequence data of every line is needed for 1ph; endtemp_degree of every line for the min case
-            zero_ok = all(k in data for k in G.LINE_ZERO) and pre in ("none", "rich")
+            od = old_data(case)
+            zero_ok = all(k in data for k in G.LINE_ZERO) and (pre in ("none", "rich") or all(k in od for k in G.LINE_ZERO))
             min_ok = "endtemp_degree" in data and pre in ("none", "rich")
         elif el == "trafo":
+            od = old_data(case)
             zero_ok = all(k in data for k in G.TRAFO_ZERO) and data.get("vector_group") in G.VECTOR_GROUPS_SC \
-                and pre in ("none", "rich")
+                and (pre in ("none", "rich") or (all(k in od for k in G.TRAFO_ZERO)
+                                                 and od.get("vector_group") in G.VECTOR_GROUPS_SC))
             min_ok = True
         else:
             zero_ok, min_ok = False, True
@@ -449,6 +463,12 @@ def rule_ii(res, case, net_std, data):
             fault = "3ph"
         if cs == "min" and not min_ok:
             cs = "max"
+        if el == "line" and cs == "min" and pre == "none":
+            # endtemp_degree is an additional type parameter that create_line does not add as a column; the documented
+            # way to bring it into the table is parameter_from_std_type (doc/std_types/manage.rst)
+            with silence():
+                pp.parameter_from_std_type(net_std, "endtemp_degree")
+            res.label("sc:endtemp-via-parameter_from_std_type")
         tabs = ["res_bus_sc", "res_line_sc", "res_trafo_sc", "res_trafo3w_sc"]
         ok = compare_calc(res, el, "sc-%s-%s" % (fault, cs), sc.calc_sc, net_std, net_x, tables=tabs, fault=fault, case=cs,
                           branch_results=True, ip=(fault == "3ph"), ith=(fault == "3ph"))
@@ -480,6 +500,9 @@ def rule_iv(res, case, net, data):
             if not pp.std_type_exists(net, name, element=el):
                 res.fail("mgmt/exists/false-for-existing", element=el)
             loaded(net, name, "after-use")
+            tab = pp.available_std_types(net, element=el)
+            if name not in tab.index or not all(same_value(tab.at[name, k], data[k]) for k in G.REQUIRED[el]):
+                res.fail("mgmt/available_std_types/row-differs", element=el)
             # overwrite=False keeps the existing type
             other = copy.deepcopy(data)
             num = [k for k in G.REQUIRED[el] if isinstance(other[k], (int, float)) and not isinstance(other[k], bool)][0]
@@ -664,8 +687,12 @@ def check(case):
         res.fail("create/%s/crash/%s" % (el, exc_sig(e)), error=repr(e)[:300], pre=case["pre"])
         return res
     rule_i(res, case, net, idx, data)
+    cell_ok = not res.failures
     rule_iii(res, case, net, idx, data)
-    done = rule_ii(res, case, net, data)
+    # a wrong cell makes the calculations differ as well: one root cause, reported once by rule (i)
+    done = rule_ii(res, case, net, data) if cell_ok else False
+    if not cell_ok:
+        res.label("calc-skipped-after-cell-failure")
     rule_iv(res, case, net, data)
     res.nontrivial = bool(done and opt)
     return res
